@@ -5,7 +5,14 @@ declaration does not depend on the order of its (explicitly numbered) variants.
 -/
 import EnumToolsModel.Thm.C09
 import EnumToolsModel.Thm.C01
+import EnumToolsModel.Lemmas.ReprTableEq
 namespace ET.Thm
+
+/-- the repr table as written in `parser/mod.rs` on this run is the model's (same reprs, same size guesses, unsigned companion of
+the same width): what makes the results independent of the repr also rests on it -/
+theorem C18_repr_table_source (t : Target) :
+    (ET.Generated.reprArms.all (armAgrees t)) = true
+    ∧ (∀ r, (reprTable t r).isSome ↔ r ∈ ET.Generated.reprArms.map (·.1)) := repr_table_source t
 
 /-- two derives (any reprs, any declaration orders, any modes) with the same discriminant-to-name map give
 the same results for every item and every input -/
